@@ -30,7 +30,7 @@ ASM = [("e4", "C03"), ("e4", "C08"), ("e4", "C07"), ("e4", "C06"), ("e5", "C09")
 LOAD = [("e5", "C09"), ("e5", "C10"), ("e5", "C16"), ("e4", "C06"), ("e4", "C03")]
 PLAN = {
     "sim.go": SIM, "simops.go": SIM, "queue.go": SIM, "staterecorder.go": [("e1", "C15"), ("e2", "C15")],
-    "warrior.go": [("e5", "C16"), ("e3", "C13"), ("e7", "C14:-job:iso")], "config.go": [("e2", "C04"), ("e4", "C07")],
+    "warrior.go": [("e5", "C16"), ("e3", "C13"), ("e7", "C14:-job:iso")], "config.go": [("e2", "C04"), ("e4", "C07"), ("e1", "C01:-cap:45")],
     "load.go": LOAD, "asm.go": LOAD + ASM[:2],
     "expr.go": ASM, "forexpand.go": ASM, "compile.go": ASM, "parser.go": ASM, "lex.go": ASM, "symbol_scanner.go": ASM, "graph.go": ASM,
 }
